@@ -182,7 +182,7 @@ abbrev Mem := List (Nat × Nat)
 
 def Mem.read (m : Mem) (a : Nat) : Nat :=
   match m.find? (·.1 == a) with
-  | some (_, b) => b
+  | some (_, b) => b % 256      -- a byte, whatever the list holds
   | none => 0
 
 def Mem.write (m : Mem) (a : Nat) (b : Nat) : Mem := (a, b % 256) :: m
